@@ -143,6 +143,8 @@ def main(chk, args):
                         'map items are unordered inside a page (protobuf map iteration order is unspecified)',
                         'timeouts observed at the channel are rounded to whole seconds']
     chk.extra['histories'] = len(cases)
+    from . import c07_classify
+    c07_classify.run(chk, rnd)
 
 
 main.level = 'model_checking'
